@@ -332,7 +332,15 @@ pub fn oracle(sc: &Scenario, out: &Outcome) -> Vec<Violation> {
             }
             let host = srv.split(':').next().unwrap().to_string();
             let replica_hosts: Vec<String> = (0..replicas).map(|i| host_of(0, i, "replica")).collect();
-            let all_out = replica_hosts.iter().all(|h| banned.contains(h) || failing.contains(h));
+            // a replica that is down, or whose pooled connections died with it, is not "another candidate"
+            let down: Vec<String> = before["backends"]
+                .as_array()
+                .unwrap()
+                .iter()
+                .filter(|b| b["accept"] != "Up" || b["startup"] != "Normal")
+                .map(|b| b["addr"].as_str().unwrap().split(':').next().unwrap().to_string())
+                .collect();
+            let all_out = replica_hosts.iter().all(|h| banned.contains(h) || failing.contains(h) || crashed.contains(h) || down.contains(h));
             if banned.contains(&host) && !all_replicas_listed && !all_out {
                 vs.push(v(
                     "C07.banned-server-used",
@@ -351,9 +359,20 @@ pub fn oracle(sc: &Scenario, out: &Outcome) -> Vec<Violation> {
                 // health check on one of them fails; not when a connect attempt is (or was) stuck
                 let stuck_connect = log.iter().take_while(|e| e.seq < end_seq).any(|e| matches!(&e.rec, Rec::Note { msg } if msg.starts_with("connect ") && msg.contains("hangs") || msg.contains("startup hangs")));
                 let single_restarted = candidates == 1 && crashed.len() == 1 && !stuck_connect;
+                // the same defect with several candidates: every one of them restarted, each dead pooled
+                // connection fails its health check, all get banned, the transaction is refused
+                let cand_hosts: Vec<String> = before["backends"]
+                    .as_array()
+                    .unwrap()
+                    .iter()
+                    .map(|b| b["addr"].as_str().unwrap().to_string())
+                    .filter(|a| role == "any" || role_of(a) == role)
+                    .map(|a| a.split(':').next().unwrap().to_string())
+                    .collect();
+                let all_restarted = candidates > 1 && cand_hosts.iter().all(|h| crashed.contains(h)) && !stuck_connect;
                 vs.push(v(
                     "C07.refused",
-                    if single_restarted { "C07.refused:single-candidate-after-restart".to_string() } else { format!("C07.refused:{}:{}", if is_final { "final" } else { "mid" }, ctx) },
+                    if single_restarted { "C07.refused:single-candidate-after-restart".to_string() } else if all_restarted { "C07.refused:all-candidates-after-restart".to_string() } else { format!("C07.refused:{}:{}", if is_final { "final" } else { "mid" }, ctx) },
                     format!(
                         "transaction {:?} (role {}) was not served although {} healthy unbanned candidate(s) existed (bans {:?}); client saw {:?}",
                         tg, role, healthy_unbanned, banned, errs
